@@ -303,4 +303,59 @@ func init() {
 		Assumptions:  []string{"encoding/json round trip of []int32 is lossless (std library contract)", "resource lists are nil (quantity rounding uses arbitrary-precision decimals)"},
 		OutsideClaim: []string{"clause (a) of the statement - a built-in StatefulSet written through the hijack client and read back is unchanged, conversion never fails - is a statement about encoding/json over the whole schema and is not decided (DESIGN.md section 6)", "template content beyond the modelled fields"},
 	})
+
+	register(&spec{
+		ID: "C02", Title: "Reconciliation converges to exactly the desired pods and then goes quiet",
+		Runs: []runSpec{
+			{Name: "converge", Pkg: pkgCtl, Func: "VH_Converge", Quick: []int{1, 2, 1, oThreeRevs}, Thorough: []int{2, 2, 1, oThreeRevs},
+				Bounds: func(a []int) string {
+					return fmt.Sprintf("bounded unrolling: from a snapshot with <=%d pods (any phase/readiness/terminating/revision mix) at ordinals of [0,%d], replicas in [0,%d], <=%d delete slots, any policy/strategy/partition, up to %d rounds of {cache refresh, real sync(key), fair kubelet step} until nothing changes, then two more reconciles", a[0], a[1]+a[2], a[1], a[2], 3*(a[0]+a[1]+a[2])+4)
+				},
+				Asserts: []string{"a fixed point is reached within the derived number of rounds", "no pod outside the desired set remains", "every desired ordinal has its pod", "once converged a reconcile issues no write", "status.readyReplicas equals spec.replicas"},
+				Covers:  []string{"converged and quiet"}, MaxSteps: 40_000_000},
+		},
+		Stubs:        ctlStubs,
+		Assumptions:  append([]string{"fairness premise: Failed/Succeeded pods lie inside the desired set; no API failures, no user edits during convergence (the start state is arbitrary)"}, stepAssume...),
+		OutsideClaim: []string{"liveness beyond the unrolling bound (a proof would be needed)", "unfair schedules, API faults (C09)", "pods with foreign owners or odd names (C10)"},
+	})
+
+	faultBounds := func(a []int) string {
+		what := fmt.Sprintf("fails with one of %d error kinds (server error, conflict, not-found, already-exists, timeout, invalid; lost responses modelled)", a[4])
+		if a[5] == 1 {
+			what = "kills the process"
+		}
+		return fmt.Sprintf("one sync(key) from a snapshot with <=%d pods at ordinals of [0,%d], replicas in [0,%d], <=%d slots, options=%#x, during which any one API call (read or write on pods, claims, revisions, the set, its status) %s; then up to %d fault-free rounds of {refresh, sync, kubelet}", a[0], a[1]+a[2], a[1], a[2], a[3], what, 3*(a[0]+a[1]+a[2])+6)
+	}
+	register(&spec{
+		ID: "C09", Title: "A failure or crash at any API call is reported, harmless, and recoverable",
+		Runs: []runSpec{
+			{Name: "failure", Pkg: pkgCtl, Func: "VH_Fault", Quick: []int{1, 1, 1, oLeanPods | oThreeRevs, 3, 0}, Thorough: []int{1, 2, 1, oThreeRevs, 6, 0}, Bounds: faultBounds,
+				Asserts: []string{"a failed API call makes the reconcile report failure", "after the failure a fixed point is reached", "every delete has a reason", "created ordinal is desired", "no pod outside the desired set remains"},
+				Covers:  []string{"a call failed", "recovered from a failure", "fault injected at pod.create", "fault injected at pod.delete", "fault injected at set.updateStatus", "fault injected at rev.list", "fault injected at pvc.create"}, MaxSteps: 40_000_000},
+			{Name: "crash", Pkg: pkgCtl, Func: "VH_Fault", Quick: []int{1, 1, 1, oLeanPods | oThreeRevs, 1, 1}, Thorough: []int{2, 2, 1, oLeanPods | oThreeRevs, 1, 1}, Bounds: faultBounds,
+				Asserts: []string{"after the failure a fixed point is reached", "no pod outside the desired set remains"},
+				Covers:  []string{"crash injected", "recovered from a crash"}, MaxSteps: 40_000_000},
+		},
+		Stubs:        ctlStubs,
+		Assumptions:  append([]string{"one fault per reconcile in the quick tier; the recovery rounds are fault free", "fairness premise as in C02"}, stepAssume...),
+		OutsideClaim: []string{"more than one fault in one reconcile (pairs: thorough tier only where registered)", "faults during the recovery rounds"},
+	})
+
+	register(&spec{
+		ID: "C18", Title: "Migration keeps pods running: revision identity equals the built-in controller's",
+		Runs: []runSpec{
+			{Name: "migrate", Pkg: pkgCtl, Func: "VH_Migrate", Quick: []int{2}, Thorough: []int{3},
+				Bounds: func(a []int) string {
+					return fmt.Sprintf("three reconciles (with garbage-collector and kubelet steps between) on the world the upgrade helper leaves behind: %d pods at the current or update revision consistent with a partition in [0,%d], owned by nobody or still by the built-in UID, one or two marker-only orphan revisions, both policies", a[0], a[0])
+				},
+				Asserts: []string{"the update revision resolves to the adopted built-in revision", "every marked revision is adopted", "revisions are label-synced before they are adopted", "every pod ends up adopted by the Advanced set", "the pod population is unchanged"},
+				Covers:  []string{"migration reconciled"}},
+		},
+		Stubs: ctlStubs,
+		Assumptions: []string{
+			"ASSUMED, not decided: the revision data the Advanced controller computes for the converted set is byte-identical to the data the built-in controller recorded (getPatch is modelled so that the template variant determines the bytes); this is the codec clause of the statement (DESIGN.md section 6)",
+			"a rollout in progress is halted by the partition (pods at or above it are already at the update revision)",
+		},
+		OutsideClaim: []string{"byte-identity of the patch with the upstream encoder for every pod template", "histories longer than two revisions"},
+	})
 }
